@@ -23,8 +23,8 @@ int STUB_secp256k1_ge_is_valid_var(const secp256k1_ge *a) { if (a->infinity || s
 #endif
 #define BOOL(r) __CPROVER_assert((r) == 0 || (r) == 1, "returns only 0 or 1")
 #define NOCB() __CPROVER_assert(verif_illegal_count == 0 && verif_error_count == 0, "neither the illegal-argument nor the error callback is invoked")
-/* heap object of exactly n symbolic bytes (n == 0: a valid one-byte object is not required; the API must not read it) */
-static unsigned char *exact_buf(size_t n) { unsigned char *p = malloc(n ? n : 1); __CPROVER_assume(p != NULL); return p; }
+/* heap object of exactly n symbolic bytes (n == 0: a zero-size object -- any read is out of bounds) */
+static unsigned char *exact_buf(size_t n) { unsigned char *p = malloc(n); __CPROVER_assume(p != NULL); return p; }
 static unsigned char *exact_buf0(size_t n) { return exact_buf(n); }
 typedef struct { unsigned char a32[32], b32[32], c32[32], k64[64], k64b[64], k66[66], k66b[66], c33a[33], c33b[33], g33[33], s162[162]; secp256k1_pubkey pk, pk2; secp256k1_xonly_pubkey xpk; secp256k1_musig_keyagg_cache cache; int f, recid, party; size_t len; } in_t;
 in_t nondet_in(void);
